@@ -23,7 +23,9 @@ RULE = ("col: 2-3 repositories (app->lib; app->lib,util; app->mid->lib), compone
         "inside the windows (40%), component builds days apart in any order w.r.t. its branches with the owner starting right "
         "inside the 1-day component cut-off of the oldest build the component must report (25%: a fix built on the newer "
         "line, backported later) or anywhere (10%, mostly not judged), both supply orders; ord: random dependency graphs over <=6 repositories incl. cycles, self-dependencies and "
-        "unknown components, shuffled supply order; parent and mid branch names also with numbers of different width "
+        "unknown components, shuffled supply order; 20% of the components are built from master with a version file that is "
+        "bumped between builds; 15% of the tagged commits also carry the first build tag of the next release line (higher "
+        "version, lower build counter); about half of the refs of the git stand-in are loose; parent and mid branch names also with numbers of different width "
         "(release/5.9 vs release/5.10); the component map of a repository is configured on the class, on the object only, or "
         "on the object with a contradicting class-level map (a third each); every collection is analysed twice (the second answer must equal the "
         "first). non-trivial = col with a non-empty included_at somewhere, or ord with >=2 "
@@ -533,9 +535,10 @@ def gen_repo(rng, nbr_max, base_names, pmerge=0.15, pmatch=0.4):
     it was created on (used for its tag)"""
     commits, heads, allc = [], [], []
     nbr = rng.randint(1, nbr_max)
+    vb = 0
     for name in base_names[:nbr]:
         parent = rng.choice(allc) if allc and rng.random() < 0.85 else None
-        for _ in range(rng.randint(1, 4)):
+        for _ in range(rng.randint(1, 4) if name != "master" or nbr > 1 else rng.randint(2, 6)):
             ps = [parent] if parent is not None else []
             if parent is not None and allc and rng.random() < pmerge:
                 o = rng.choice(allc)
@@ -544,8 +547,10 @@ def gen_repo(rng, nbr_max, base_names, pmerge=0.15, pmatch=0.4):
                     if rng.random() < 0.5:
                         ps.reverse()
             cid = len(commits)
+            if name == "master" and rng.random() < 0.4:
+                vb += 1                 # the version file of a master-built repository is bumped now and then
             commits.append({"p": ps, "line": name, "tagged": rng.random() < 0.5, "m": 1 if rng.random() < pmatch else 0,
-                            "pins": {}, "two": rng.random() < 0.2})
+                            "pins": {}, "two": rng.random() < 0.2, "vb": vb, "xl": rng.random() < 0.15})
             parent = cid
             allc.append(cid)
         heads.append([name, parent])
@@ -559,6 +564,13 @@ def ver_of(name):
     return (int(a), int(b))
 
 
+def cver(c):
+    """(major, minor) of the builds made from the commit: the release line's, or what the version file of a master-built
+    repository says at that commit"""
+    M, m = ver_of(c["line"])
+    return (M, m + c.get("vb", 0)) if c["line"] in ("master", "main") else (M, m)
+
+
 def tag_nums(i, c):
     """build numbers of the tags on commit i (increasing along history); a fifth of the tagged commits carry two"""
     return [10 * i + 1, 10 * i + 2] if c.get("two") else [10 * i + 1]
@@ -566,10 +578,17 @@ def tag_nums(i, c):
 
 def finish_repo(commits, heads):
     for i, c in enumerate(commits):
-        M, m = ver_of(c["line"])
-        c["t"] = [[M, m, n, n] for n in tag_nums(i, c)] if c.pop("tagged") else []
+        M, m = cver(c)
+        tagged = c.pop("tagged")
+        c["t"] = [[M, m, n, n] for n in tag_nums(i, c)] if tagged else []
+        if tagged and c.get("xl") and M < G.MASTER_STYLE_FROM:
+            # the commit is also the first build of the next release line (fork point): a higher version with a
+            # LOWER build counter - the order of the build numbers is not the order of the counters
+            c["t"].append([M, m + 1, 10 * i, 10 * i])
         c.pop("line")
         c.pop("two", None)
+        c.pop("vb", None)
+        c.pop("xl", None)
     return {"commits": commits, "refs": heads}
 
 
@@ -580,7 +599,7 @@ def add_pins(rng, parent_commits, comp_name, comp_commits):
         lo = max([idx[p] for p in c["p"]] + [0])
         idx[i] = min(len(builds) - 1, lo + rng.choice([0, 0, 1, 1, 2]))
         b = builds[idx[i]]
-        M, m = ver_of(comp_commits[b]["line"])
+        M, m = cver(comp_commits[b])
         c["pins"][comp_name] = [M, m, rng.choice(tag_nums(b, comp_commits[b]))]
 
 
@@ -614,7 +633,7 @@ def add_pins_dag(rng, parent_commits, comp_name, comp_commits, comp_head, monoto
             cands = [b for b in builds if all(q <= b for q in prev)]
         cands = cands[:3] if cands else [max(prev)]
         pin[i] = rng.choice(cands)
-        M, m = ver_of(comp_commits[pin[i]]["line"])
+        M, m = cver(comp_commits[pin[i]])
         c["pins"][comp_name] = [M, m, rng.choice(tag_nums(pin[i], comp_commits[pin[i]]))]
 
 
@@ -634,7 +653,7 @@ def gen_col(rng, shape, lib_lines):
         for i, c in enumerate(lib):
             c["p"] = [i - 1] if i else []
     else:
-        lib, lheads = gen_repo(rng, lib_lines, LIB_LINES, pmerge=0.1)
+        lib, lheads = gen_repo(rng, lib_lines, LIB_LINES if rng.random() < 0.8 else ["master"], pmerge=0.1)
     lib[0]["tagged"] = True
     if shape.startswith("dagapp"):
         n = rng.randint(4, 9)
